@@ -278,13 +278,11 @@ Section Algebra.
           rewrite (coeff_absent rO s _ Eb). ring.
       + apply andb_true_iff in HL. destruct HL as [HL _]. apply andb_true_iff in HL. destruct HL as [Ha Hb].
         unfold Current.cur_sub. rewrite alg_add, alg_scale, (IHa Ha), (IHb Hb). reflexivity.
-    - (* a *= k : same index, nothing can be lost *)
-      destruct m; simpl in *.
-      + rewrite coeff_reindex_like.
-        destruct (smem s (keys (denote InplaceReindex a))) eqn:Es.
-        * rewrite alg_scale, (IHa HL). reflexivity.
-        * rewrite <- (IHa HL). rewrite (coeff_absent rO s _ Es). ring.
+    - (* a *= k : pandas' in-place path, same index, nothing can be lost *)
+      rewrite coeff_reindex_like.
+      destruct (smem s (keys (denote m a))) eqn:Es.
       + rewrite alg_scale, (IHa HL). reflexivity.
+      + rewrite <- (IHa HL). rewrite (coeff_absent rO s _ Es). ring.
   Qed.
 
   Lemma lossless_rebind : forall e, inplace_lossless InplaceRebind e = true.
@@ -325,9 +323,7 @@ Section Algebra.
       + rewrite keys_reindex_like in H. left; auto.
       + unfold Current.cur_sub in H. rewrite keys_cur_add, smem_union_keys, keys_cur_mul in H.
         apply orb_true_iff in H. destruct H; [left; apply IHa | right; apply IHb]; auto.
-    - destruct m; simpl in H.
-      + rewrite keys_reindex_like in H. auto.
-      + rewrite keys_cur_mul in H. auto.
+    - rewrite keys_reindex_like in H. auto.
   Qed.
 End Algebra.
 Set Default Proof Using "Type".
@@ -365,3 +361,7 @@ Lemma inplace_witness_values :
   qcoeff (qdenote InplaceReindex inplace_witness) 1%nat == 0 /\ qceval inplace_witness 1%nat == 2
   /\ qcoeff (qdenote InplaceRebind inplace_witness) 1%nat == 2.
 Proof. vm_compute. repeat split; intro H; discriminate H. Qed.
+
+(* the class as it is in the tree under test: Gen/C12Shape.v says whether it defines += / -= itself *)
+Lemma qtree_repo_law : forall (e : cexpr Q) s, qcoeff (qdenote repo_inplace_mode e) s == qceval e s.
+Proof. exact qtree_rebind_law. Qed.
